@@ -119,7 +119,7 @@ pub fn plans(dev: &mut RigDev) {
 fn class_ok(got: i16, want: i16) -> bool {
     // lexical errors: any command error -100..-199 is acceptable for the "lexical" kinds (the exact
     // syntax error number is C04/C14 business); all other kinds are exact.
-    if want == -101 {
+    if want == -101 || want == -104 {
         (-199..=-100).contains(&got)
     } else {
         got == want
@@ -198,7 +198,7 @@ pub fn judge(msg: &[u8], exp: &Expect, calls: &[(u8, bool)], result: Result<(), 
                 };
                 return Err((key.into(), format!("`{m}` (unit {i} fails) invoked {:?}; expected {:?} then own handler {:?}/{:?}", calls, exp.before, own, own_call)));
             }
-            if !class_ok(err.0, *code) || (*code != -101 && err.1.as_deref() != *ext) {
+            if !class_ok(err.0, *code) || (*code != -101 && *code != -104 && err.1.as_deref() != *ext) {
                 return Err(("wrong-error-returned".into(), format!("`{m}` returned {:?}, expected {code} {:?}", err, ext.map(esc))));
             }
             if hook.len() != 1 {
@@ -387,7 +387,7 @@ pub fn run(ctx: &'static Ctx) -> i32 {
         "fault_enumeration",
         c,
         vec![
-            "lexical-error kinds accept any command-error number (which one is C04/C14)".into(),
+            "lexical-error and data-type-error kinds accept any command-error number (which one is C04/C08/C14)".into(),
             "for a lexical error inside a unit's data the unit's own handler may or may not have been entered (one-token lookahead); no later handler may run".into(),
             "formatter faults are injected through ArrayVec capacities (see C11)".into(),
         ],
